@@ -53,6 +53,12 @@ Theorem C08_detour_invisible : forall d p,
   PathLexProofs.no_slash d -> d <> ""%string -> d <> "."%string -> d <> ".."%string -> p <> ""%string -> rooted p = false ->
   clean (d ++ "/../" ++ p)%string = clean p.
 Proof. exact PathLexMore.clean_detour. Qed.
+Theorem C08_double_slash_invisible : forall a b, clean (a ++ "//" ++ b)%string = clean (a ++ "/" ++ b)%string.
+Proof. exact PathLexMore.clean_double_slash. Qed.
+Theorem C08_dot_component_invisible : forall a b, clean (a ++ "/./" ++ b)%string = clean (a ++ "/" ++ b)%string.
+Proof. exact PathLexMore.clean_dot_component. Qed.
+Theorem C08_trailing_dot_invisible : forall p, p <> ""%string -> clean (p ++ "/.")%string = clean p.
+Proof. exact PathLexMore.clean_trailing_dot. Qed.
 Theorem C08_clean_idempotent : forall p, clean (clean p) = clean p.
 Proof. exact PathLexProofs.clean_idem. Qed.
 Example C08_spellings_example :
@@ -77,3 +83,6 @@ Print Assumptions C08_dot_slash_invisible.
 Print Assumptions C08_trailing_slash_invisible.
 Print Assumptions C08_detour_invisible.
 Print Assumptions C08_clean_idempotent.
+Print Assumptions C08_double_slash_invisible.
+Print Assumptions C08_dot_component_invisible.
+Print Assumptions C08_trailing_dot_invisible.
